@@ -150,7 +150,16 @@ func runCheck(e *Engine, prop string, cfg PropConfig, known []KnownFinding, seed
 		return 3
 	}
 	tmp, _ := os.MkdirTemp("", "verif-"+prop+"-")
-	defer os.RemoveAll(tmp)
+	if os.Getenv("VERIF_KEEP") == "" {
+		defer os.RemoveAll(tmp)
+	} else {
+		fmt.Println("keeping scratch dir", tmp)
+	}
+	if old, _ := filepath.Glob(filepath.Join(e.verifDir, "replays", prop+"-*.json")); len(old) > 0 {
+		for _, f := range old {
+			os.Remove(f)
+		}
+	}
 	rp := &replayer{e: e, tmp: tmp, bins: map[string]string{}, binErr: map[string]error{}, harness: map[string][]string{}}
 	for _, fn := range hs {
 		d := pkgDirOf(fn)
